@@ -81,3 +81,17 @@ Definition known_env_reads : list triple := [
   (* a module-level constant set used for membership tests only *)
   t3 "vppclassdiagram" "<module>" "set-literal"
 ].
+
+(* ---------------------------------------------------------------- process state (C06: a generation depends on nothing an earlier
+   generation of the same interpreter left behind).  Every module-level / class-level binding to a mutable container, every
+   `global`, every decorator (memoisation), every mutable default argument and every attribute stored on a class object in the
+   generator's modules is one of: *)
+Definition known_process_state : list triple := [
+  (* written by Language.__init__ (the most recent back end object), read nowhere *)
+  t3 "Language" "<function>" "class-attribute:Language.Lang";
+  (* the set of primitive type names: a constant, only used for membership tests (the `global` declaration is in the reader) *)
+  t3 "vppclassdiagram" "<module>" "mutable:PRIMITIVES";
+  t3 "vppclassdiagram" "<function>" "global:PRIMITIVES";
+  (* cursor of the recursive blob parser: assigned from the argument at every entry of ParseBLOB_Recursive before it is read *)
+  t3 "vppfs" "<function>" "global:index_PBR"
+].
